@@ -41,7 +41,8 @@ TransferClauses(c) ==
   IF c.lost THEN (IF c.len = "finite" THEN {"unrecoverable_never_finite"} ELSE {})
   ELSE
       (IF c.len # "finite" THEN {"finite_when_regular"} ELSE {})
-    \cup (IF c.len = "finite" /\ SetOf(c.zeros) \notin Sn!Admissible(c.k, SetOf(c.small), SetOf(c.tie), {}) THEN {"dropped_set"} ELSE {})
+    \cup (IF c.len = "finite" /\ SetOf(c.zeros) \notin Sn!Admissible(c.k, SetOf(c.small), SetOf(c.tie), {SetOf(c.bad[i]) : i \in 1..Len(c.bad)})
+          THEN {"dropped_set"} ELSE {})
     \cup (IF ~c.pOK THEN {"parameters_are_map_of_ml"} ELSE {})
     \cup (IF c.len = "finite" /\ ~c.formula THEN {"length_from_transformed_fisher"} ELSE {})
     \cup (IF ~c.nllok THEN {"nll_of_unique_or_reevaluated"} ELSE {})
